@@ -206,12 +206,16 @@ func TestVerif_C20Processor(t *testing.T) {
 				f.Pix[1][1] = level
 				f.Status = cptvframe.Telemetry{TimeOn: time.Minute + time.Duration(i)*time.Second, FrameCount: i}
 				mp.ProcessFrame(f)
+				if i%97 == 96 {
+					// camera resets ('clear') do not make the recurring condition new
+					mp.Reset(cam)
+				}
 			}
 			elapsed := time.Since(t0)
 			lines := strings.Count(buf.String(), "Recording not started")
 			// outer stopwatch: over-estimates the number of one-minute intervals (sound direction)
 			maxLines := int(elapsed/minLogInterval) + 2
-			if sink.checks < nframes-2 {
+			if sink.checks < nframes/2 {
 				c.Inconclusive(fmt.Sprintf("only %d refused starts in %d frames", sink.checks, nframes))
 				return
 			}
